@@ -11,9 +11,14 @@ Ltac sgn_case :=
   repeat match goal with
   | |- context [?a >? ?b] => rewrite (Z.gtb_ltb a b)
   | |- context [?a >=? ?b] => rewrite (Z.geb_leb a b)
-  | |- context [?a <? ?b] => destruct (Z.ltb_spec a b)
-  | |- context [?a <=? ?b] => destruct (Z.leb_spec a b)
-  | |- context [?a =? ?b] => destruct (Z.eqb_spec a b)
+  | H : context [?a >? ?b] |- _ => rewrite (Z.gtb_ltb a b) in H
+  | H : context [?a >=? ?b] |- _ => rewrite (Z.geb_leb a b) in H
+  | |- context [if ?a <? ?b then _ else _] => destruct (Z.ltb_spec a b)
+  | |- context [if ?a <=? ?b then _ else _] => destruct (Z.leb_spec a b)
+  | |- context [if ?a =? ?b then _ else _] => destruct (Z.eqb_spec a b)
+  | H : context [if ?a <? ?b then _ else _] |- _ => destruct (Z.ltb_spec a b)
+  | H : context [if ?a <=? ?b then _ else _] |- _ => destruct (Z.leb_spec a b)
+  | H : context [if ?a =? ?b then _ else _] |- _ => destruct (Z.eqb_spec a b)
   end; lia.
 
 Theorem gen_cop_f_is_sign : forall t, gen_cop_f t = sgn t.
